@@ -234,11 +234,13 @@ func fileInfo(name string, part *multipart.Part) os.FileInfo {
 	}
 
 	var secs, nsecs int64
-	if v := params["mtime"]; v != nil {
-		secs, err = strconv.ParseInt(v[0], 10, 64)
-		if err != nil {
-			return &fi
-		}
+	v := params["mtime"]
+	if v == nil {
+		return &fi
+	}
+	secs, err = strconv.ParseInt(v[0], 10, 64)
+	if err != nil {
+		return &fi
 	}
 	if v := params["mtime-nsecs"]; v != nil {
 		nsecs, _ = strconv.ParseInt(v[0], 10, 64)
